@@ -375,5 +375,5 @@ package bbolt
 //@   requires canbegin(db)
 //@   callback ensures t.db == db && t.writable && t.meta != nil && t.root.tx == t && db.rwtx == t && db.freelist != nil && mapok(t) && !db.metalock.held
 //@   callback ensures db.pageSize >= 512 && db.pageSize <= 16777216 && t.meta.magic == common.Magic && t.meta.version == common.Version && (t.meta.pgid + 8589934592) * db.pageSize <= 2305843009213693952 && db.AllocSize >= 0 && db.AllocSize <= 2305843009213693952 && db.datasz >= 0 && db.MaxSize >= 0 && (t.meta.pgid + 1) * db.pageSize <= db.datasz && db.datasz <= common.MaxMapSize && (db.NoSync || unsynced == 0) && !db.StrictMode && db.readOnly == old(db.readOnly) && !t.managed == !t.managed
-//@   ensures [unlocked] !db.rwlock.held || db.readOnly
-//@   ensures [readonlydb] db.readOnly ==> result == berrors.ErrDatabaseReadOnly
+//@   ensures [unlocked] !db.rwlock.held || old(db.readOnly)
+//@   ensures [readonlydb] old(db.readOnly) ==> result == berrors.ErrDatabaseReadOnly
